@@ -180,7 +180,7 @@ type e2eConfig struct {
 	Dir         string        // scenario directory (config file, queue roots); must exist
 	Keys        []string      // orchestration keys: {"app"} or {"app","source"}
 	Outputs     []e2eOutput   // at least one
-	StopTimeout time.Duration // watchdog for Stop (default 30 s)
+	StopTimeout time.Duration // watchdog for Stop (default 75 s: a stop takes well under a second; 30 s was exceeded once on the unchanged tree with the machine at load > 100, session 4)
 	Latch       bool          // first transformation = e2eLatch: a worker blocks on a record whose message contains e2eLatchMarker while the latch is armed
 }
 
@@ -266,7 +266,7 @@ func e2eNewAgent(cfg e2eConfig, tr *e2eTrace) (*e2eAgent, error) {
 	e2eQuietLogs()
 	e2eRegisterLatch()
 	if cfg.StopTimeout == 0 {
-		cfg.StopTimeout = 30 * time.Second
+		cfg.StopTimeout = 75 * time.Second
 	}
 	if len(cfg.Keys) == 0 || len(cfg.Outputs) == 0 {
 		return nil, errors.New("e2e: keys and outputs required")
